@@ -158,7 +158,25 @@ def session(part, rng, srv_holder, variant, known, nreq):
         # the server's copy must still be the client's (a silently dropped or misapplied change is "going silent" on the document)
         got = srv.text_of(uri)
         if got != cur: part.cnt("text_mismatch_after_hostile_edits")   # reported by C08; counted here only
-        srv.close_doc(uri)
+        if rng.random() < .08:
+            # the last requests, shutdown and exit written in one piece: every request is still answered before the process ends
+            from ..client import frame
+            blob = b""; ids = []
+            for method in rng.sample(DOC_METHODS + POS_METHODS, rng.randint(2, 8)):
+                srv.id += 1; ids.append((srv.id, method))
+                blob += frame({"jsonrpc": "2.0", "id": srv.id, "method": method, "params": params_for(method, uri, {"line": 0, "character": 0}, rng)})
+            srv.id += 1; ids.append((srv.id, "shutdown")); blob += frame({"jsonrpc": "2.0", "id": srv.id, "method": "shutdown"}) + frame({"jsonrpc": "2.0", "method": "exit"})
+            srv.send_raw(blob)
+            try:
+                for rid, method in ids:
+                    m = srv.wait_response(rid, 30); part.ev()
+                    if "error" in m: part.fail("%s (pipelined in front of shutdown + exit) is answered with an error %r" % (method, m["error"]), dict(log, method=method)); break
+            except ServerDied as e:
+                part.fail("requests, shutdown and exit written in one piece: the process ended (status %s) before request %d (%s) was answered" % (e.status, rid, method), dict(log, method=method, goodbye=[m for _, m in ids]))
+            part.cnt("pipelined_goodbyes")
+            srv.kill(); srv_holder[0] = None
+        else:
+            srv.close_doc(uri)
         part.cnt("sessions_completed")
     except ServerDied as e:
         sig = panic_signature(e.stderr)
